@@ -80,9 +80,10 @@ func vpSameIDSet(a, b []PDU) bool {
 
 func vpNotRejected(string) bool { return false }
 
-// vp:check C10 both configs=version:10|12;shape:topic|ban-vs-name|ban-vs-invite|stale-topic K=24 timeout=1200 maporder=github.com/matrix-org/gomatrixserverlib.ResolveStateConflictsV2New|github.com/matrix-org/gomatrixserverlib.splitConflictedUnconflicted|github.com/matrix-org/gomatrixserverlib.eventMapFromEvents|github.com/matrix-org/gomatrixserverlib.kahnsAlgorithmUsingAuthEvents|github.com/matrix-org/gomatrixserverlib.kahnsAlgorithmUsingPrevEvents
-// vp:check C11 both configs=version:1|10|12;shape:topic|ban-vs-name|ban-vs-invite|stale-topic K=24 timeout=1200 maporder=github.com/matrix-org/gomatrixserverlib.ResolveStateConflictsV2New|github.com/matrix-org/gomatrixserverlib.splitConflictedUnconflicted|github.com/matrix-org/gomatrixserverlib.eventMapFromEvents|github.com/matrix-org/gomatrixserverlib.kahnsAlgorithmUsingAuthEvents|github.com/matrix-org/gomatrixserverlib.kahnsAlgorithmUsingPrevEvents
+// vp:check C10 both configs=version:10|12;shape:topic|ban-vs-name|ban-vs-invite|stale-topic|topic-cites-message K=24 timeout=1200 maporder=github.com/matrix-org/gomatrixserverlib.ResolveStateConflictsV2New|github.com/matrix-org/gomatrixserverlib.splitConflictedUnconflicted|github.com/matrix-org/gomatrixserverlib.eventMapFromEvents|github.com/matrix-org/gomatrixserverlib.kahnsAlgorithmUsingAuthEvents|github.com/matrix-org/gomatrixserverlib.kahnsAlgorithmUsingPrevEvents
+// vp:check C11 both configs=version:1|10|12;shape:topic|ban-vs-name|ban-vs-invite|stale-topic|topic-cites-message K=24 timeout=1200 maporder=github.com/matrix-org/gomatrixserverlib.ResolveStateConflictsV2New|github.com/matrix-org/gomatrixserverlib.splitConflictedUnconflicted|github.com/matrix-org/gomatrixserverlib.eventMapFromEvents|github.com/matrix-org/gomatrixserverlib.kahnsAlgorithmUsingAuthEvents|github.com/matrix-org/gomatrixserverlib.kahnsAlgorithmUsingPrevEvents
 // vp:check C11 both configs=version:1|2|10;shape:two-members K=24 timeout=1200 maporder=github.com/matrix-org/gomatrixserverlib.ResolveStateConflictsV2New|github.com/matrix-org/gomatrixserverlib.splitConflictedUnconflicted|github.com/matrix-org/gomatrixserverlib.eventMapFromEvents|github.com/matrix-org/gomatrixserverlib.kahnsAlgorithmUsingAuthEvents|github.com/matrix-org/gomatrixserverlib.kahnsAlgorithmUsingPrevEvents
+// vp:check C18 both configs=version:2|10|12;shape:topic-cites-message|topic K=24 timeout=1200
 // vp_C11_resolve: ResolveConflictsNew on two state sets forked after an agreed base (create, join, power levels):
 // the result set is the same for both orders of the state sets, for permuted events inside the sets, for every map
 // iteration order, with auth events listed twice; it has one event per (type, state_key), consists of supplied events,
@@ -96,6 +97,14 @@ func vp_C11_resolve() {
 	tsA, tsB := 10+vpNondetBits("tsA", 4), 10+vpNondetBits("tsB", 4)
 	extraAuth := []PDU{}
 	switch vpConfig("shape") {
+	case "topic-cites-message":
+		// as "topic", but one of the two topics lists an ordinary message (no state key) among its auth events and that
+		// message is supplied with the auth events: it ends up in the auth difference and goes through the same
+		// machinery as state events
+		msg := vpSetAuth(vpMkEvent(ver, "$msg:x", h.room, vpAlice, "m.room.message", nil, vpJObj("body", "hi")), authIDs, 5, 4)
+		extraAuth = append(extraAuth, msg)
+		fa = vpSetAuth(vpMkEvent(ver, "$ta:x", h.room, vpAlice, "m.room.topic", vpStrPtr(""), vpJObj("topic", "A")), append(append([]string{}, authIDs...), "$msg:x"), tsA, 6)
+		fb = vpSetAuth(vpMkEvent(ver, "$tb:x", h.room, vpAlice, "m.room.topic", vpStrPtr(""), vpJObj("topic", "B")), authIDs, tsB, 4)
 	case "topic":
 		fa = vpSetAuth(vpMkEvent(ver, "$ta:x", h.room, vpAlice, "m.room.topic", vpStrPtr(""), vpJObj("topic", "A")), authIDs, tsA, 4)
 		fb = vpSetAuth(vpMkEvent(ver, "$tb:x", h.room, vpAlice, "m.room.topic", vpStrPtr(""), vpJObj("topic", "B")), authIDs, tsB, 4)
@@ -117,7 +126,9 @@ func vp_C11_resolve() {
 	setA := append(append([]PDU{}, h.base...), fa)
 	setB := append(append([]PDU{}, h.base...), fb)
 	agreed := h.base
-	if vpConfig("shape") == "stale-topic" {
+	if vpConfig("shape") == "topic-cites-message" {
+		// nothing else differs from "topic"
+	} else if vpConfig("shape") == "stale-topic" {
 		// Bob (level 50) joined and was later banned; the ban is part of both state sets (unconflicted). One set still
 		// carries a topic Bob set while he was a member, the other a topic set by Alice. Algorithm v2 checks the
 		// conflicted events on top of the unconflicted state (Bob is banned there: his topic is dropped); v2.1 starts
@@ -213,7 +224,7 @@ func vp_C11_resolve() {
 				vpAssert("v2-unconflicted-ban-in-force", got[fa.EventID()] && !got[fb.EventID()])
 			}
 			vpAssert("ban-kept", got["$ban:x"])
-		} else if vpConfig("shape") == "topic" {
+		} else if vpConfig("shape") == "topic" || vpConfig("shape") == "topic-cites-message" {
 			// two non-power events on the same mainline position: ordered by (timestamp, ID), the later one is applied last
 			bWins := tsB > tsA || (tsB == tsA && fb.EventID() > fa.EventID())
 			// KF-C10-1: in v2.1 the partial state is empty, the fallback to the event's own auth events adds the event itself
